@@ -49,6 +49,14 @@ def cases(draw):
         L.setdefault('faults', {})[ending.split('-')[1]] = 'ValueError'
     if draw(st.booleans()):
         gen.add_outputs(draw, spec, prob=40, bad_bytes=False)
+    # tests that touch the same interpreter state themselves
+    for t in tests:
+        r = draw(st.integers(0, 11))
+        act = {0: ['warn_filter', 'simple'], 1: ['warn_filter', 'message'], 2: ['settrace_cycle'], 3: ['chdir', '/']}.get(r)
+        if act:
+            t.setdefault('acts', {}).setdefault(draw(st.sampled_from(['setUp', 'body', 'tearDown'])), []).append(act)
+    if draw(st.integers(0, 5)) == 0:
+        spec['modules'][0].setdefault('acts', []).append(['warn_filter', 'simple'])
     o = {}
     if draw(st.booleans()):
         o['gc'] = draw(st.lists(st.integers(0, 900), min_size=1, max_size=3))
@@ -56,6 +64,7 @@ def cases(draw):
         o['G'] = draw(st.lists(st.sampled_from(GC_FLAGS), min_size=1, max_size=3, unique=True))
     o['coverage'] = draw(st.sampled_from([False, False, True]))
     o['profile'] = draw(st.sampled_from([False, False, True]))
+    o['profile_rel'] = draw(st.booleans())      # default (relative) profile directory
     o['buffer'] = draw(st.booleans()) or ending == 'leaked-stream'
     o['post_mortem'] = draw(st.sampled_from([False, False, False, True]))
     o['warnings'] = draw(st.sampled_from([None, 'default', 'error', 'ignore', 'always']))
@@ -74,7 +83,11 @@ def cases(draw):
         'profile': draw(st.booleans()) and not o['profile'],
         'thr_trace': draw(st.booleans()) and not o['coverage'],
         'thr_profile': draw(st.booleans()),
+        'warnoptions': draw(st.sampled_from([False, False, True])),   # the interpreter was started with -W ...
     }
+    if any(a[0] == 'settrace_cycle' for t in tests for acts in (t.get('acts') or {}).values() for a in acts):
+        # (a test that clears the trace function itself would clear a pre-existing one too: not the runner's doing)
+        init['trace'] = False
     return {'spec': spec, 'opts': o, 'init': init, 'ending': ending}
 
 
@@ -131,7 +144,7 @@ class InProc(Part):
         if o.get('coverage'):
             args += ['--coverage', os.path.join(tmp, 'cov')]
         if o.get('profile'):
-            args += ['--profile', 'cProfile', '--profile-directory', tmp]
+            args += ['--profile', 'cProfile'] + ([] if o.get('profile_rel') else ['--profile-directory', tmp])
         if o.get('post_mortem'):
             args.append('-D')
         if o.get('gc_after_test'):
@@ -140,10 +153,12 @@ class InProc(Part):
                                 'repeat': o.get('repeat', 1)})
         state = {}
         saved = {'thr': gc.get_threshold(), 'dbg': gc.get_debug(), 'filters': list(warnings.filters),
-                 'tb': (traceback.format_exception, traceback.print_exception)}
+                 'tb': (traceback.format_exception, traceback.print_exception), 'warnoptions': list(sys.warnoptions)}
 
         def before():
             # the generated *initial* state, installed after the driver replaced the std streams
+            if init.get('warnoptions'):
+                sys.warnoptions[:] = ['default::ImportWarning']
             if init['gc_threshold']:
                 gc.set_threshold(*init['gc_threshold'])
             gc.set_debug(init['gc_debug'])
@@ -178,6 +193,7 @@ class InProc(Part):
             if hasattr(warnings, '_filters_mutated'):
                 warnings._filters_mutated()
             traceback.format_exception, traceback.print_exception = saved['tb']
+            sys.warnoptions[:] = saved['warnoptions']
             shutil.rmtree(tmp, ignore_errors=True)
             del gc.garbage[:]
         b, a = state.get('before'), state.get('after')
